@@ -36,7 +36,12 @@ CHECKS["C08"] = {
             "message never received / value 1 / 2 / 3 with onlyAvailable=true, value 3 with onlyAvailable=false): "
             "with onlyAvailable=true only definitions whose condition holds count as matching and an unavailable "
             "result is a violation; isAvailable() of every loaded definition is first compared with the environment "
-            "model (a disagreement caps the run instead of judging the state).",
+            "model (a disagreement caps the run instead of judging the state). Chain-shape pass: 6 chained definitions "
+            "with 3-4 parts whose common prefix differs from the prefix shared by first and last part (middle part "
+            "deviating first, last deviating first, first differing from all others, nothing in common, 5-byte IDs, "
+            "wildcard destination), loaded through the CSV path, with the same 12 partners: every ordered subset up "
+            "to the size bound that contains one of them. Telegram derivation additionally recombines, for every "
+            "chained definition, the head of one part ID with the tail of another (every split point).",
     "assumptions": [
         "definitions are 'loaded' when the loader accepted them (duplicates rejected by MessageMap::add are not part of the state)",
         "condition evaluation itself is C13's subject: C08 uses two simple numeric conditions, sets the referenced value once per state under a virtual clock and checks isAvailable() against its model before judging",
@@ -46,9 +51,9 @@ CHECKS["C08"] = {
         "harness": "c08_find", "sources": ["engines/msgmc/c08_find.cpp"], "deps": ["engines/msgmc/c08_universe.h"],
         "variant": "plain", "libset": "core",
         "quick": {"parts": 16, "deadline": 55,
-                  "bounds": "40 unconditional definitions: all ordered subsets of size<=2 x all telegrams, size 3 x member-derived telegrams; 7 conditional + 12 partner definitions: ordered subsets of size<=3 containing a conditional one x 5 environments; 16 flag combinations"},
+                  "bounds": "40 unconditional definitions: all ordered subsets of size<=2 x all telegrams, size 3 x member-derived telegrams; 7 conditional + 12 partner definitions: ordered subsets of size<=3 containing a conditional one x 5 environments; 6 multi-part chained + 12 partner definitions: ordered subsets of size<=3 containing a multi-part chain; 16 flag combinations"},
         "thorough": {"parts": 16, "deadline": 840,
-                     "bounds": "40 definitions; all ordered subsets of size<=3 x all telegrams; size 4 over the 28-definition core x member-derived telegrams; 7 conditional + 12 partner definitions: ordered subsets of size<=4 containing a conditional one x 5 environments; 16 flag combinations"},
+                     "bounds": "40 definitions; all ordered subsets of size<=3 x all telegrams; size 4 over the 28-definition core x member-derived telegrams; 7 conditional + 12 partner definitions: ordered subsets of size<=4 containing a conditional one x 5 environments; 6 multi-part chained + 12 partner definitions: ordered subsets of size<=4 containing a multi-part chain; 16 flag combinations"},
     }],
 }
 
